@@ -371,8 +371,8 @@ def run(c, facts, tier):
 
     _inlined = set(_c06.inner_summary(b, facts.fn(an.role("parse_inner"))).inlined)
     for key, fn in sorted(facts.fns.items()):
-        if fn.test or fn.module[:1] != ("find_parser",) or not F.norm_ty(fn.node["output"]).startswith("PResult<"):
-            continue
+        if fn.test or fn.module[:1] != ("find_parser",) or not F.norm_ty(fn.node["output"]).startswith("PResult<") or key in b.template_fns():
+            continue  # (a template is examined through each of its instances)
         if (fn.node.get("generics") or "").strip("<> ") or (fn.impl is not None and (fn.impl.get("generics") or "").strip("<> ")):
             continue  # generic parsers are checked through their instantiations (reachability walk below)
         if key == an.role("parse_inner") or key in _inlined:
